@@ -199,8 +199,9 @@ type inst struct {
 }
 
 type options struct {
-	bits       int // corrupted bits per proof byte (1 = one seeded bit, 8 = all)
-	corruptMax int // exhaustive corruption for the first N distinct contents per flavour
+	cleanCache bool // disk flavours: trie.Database with a clean-node cache (reads go through the cache + decodeNode)
+	bits       int  // corrupted bits per proof byte (1 = one seeded bit, 8 = all)
+	corruptMax int  // exhaustive corruption for the first N distinct contents per flavour
 	seed       int64
 }
 
@@ -214,12 +215,19 @@ func openTrie(secure bool, root common.Hash, db *trie.Database) (TrieI, error) {
 func newInst(fl flavor, uni [][]int, opt *options, salt int64) *inst {
 	in := &inst{fl: fl, km: newKeymap(fl.Emb, opt.seed), uni: uni, opt: opt}
 	in.disk = rawdb.NewMemoryDatabase(log.Global)
-	in.tdb = trie.NewDatabase(in.disk)
+	in.tdb = in.newTrieDB()
 	t, err := openTrie(fl.Secure, common.Hash{}, in.tdb)
 	must(err)
 	in.t = t
 	in.rng = rand.New(rand.NewSource(opt.seed*7919 + salt))
 	return in
+}
+
+func (in *inst) newTrieDB() *trie.Database {
+	if in.opt.cleanCache && in.fl.Disk {
+		return trie.NewDatabaseWithConfig(in.disk, &trie.Config{Cache: 1, Preimages: true})
+	}
+	return trie.NewDatabase(in.disk)
 }
 
 // key for the trie API
@@ -378,7 +386,17 @@ func (in *inst) checkRoot(h common.Hash, c []Pair) *Viol {
 
 func (in *inst) commit(c []Pair) *Viol {
 	h := in.t.Hash()
-	root, err := in.t.Commit(nil)
+	// the state code commits with a leaf callback (nodes travel through the committer's channel and
+	// goroutine), everything else without: the disk flavours take the first path
+	var onleaf trie.LeafCallback
+	leaves := 0
+	if in.fl.Disk {
+		onleaf = func(_ [][]byte, _ []byte, leaf []byte, parent common.Hash) error {
+			leaves++
+			return nil
+		}
+	}
+	root, err := in.t.Commit(onleaf)
 	if err != nil {
 		return viol("commit-error", "%v", err)
 	}
@@ -390,7 +408,7 @@ func (in *inst) commit(c []Pair) *Viol {
 		if err := in.tdb.Commit(root, false, nil); err != nil {
 			return viol("commit-error", "Database.Commit: %v", err)
 		}
-		db2 = trie.NewDatabase(in.disk)
+		db2 = in.newTrieDB()
 	}
 	in.croot, in.committed = root, true
 	// reopen a second trie at the committed root and read everything back
@@ -411,21 +429,28 @@ func (in *inst) commit(c []Pair) *Viol {
 	if g := t2.Hash(); g != root {
 		return &Viol{Cat: "reopen-root", Detail: "Hash of the reopened trie", Exp: root.Hex(), Got: g.Hex()}
 	}
-	// the reopened trie must stay canonical when modified: delete one key, re-insert it
-	if len(c) > 0 {
+	// a trie reopened at the committed root (nothing loaded yet) must stay canonical when modified:
+	// delete one key (the collapse has to load the remaining sibling), re-insert it
+	for n := 0; n < 3 && n < len(c); n++ {
 		p := c[in.rng.Intn(len(c))]
-		t2.TryDelete(in.akey(p.K))
+		t3, err := openTrie(in.fl.Secure, root, db2)
+		if err != nil {
+			return viol("reopen-error", "trie.New(committed root): %v", err)
+		}
+		if err := t3.TryDelete(in.akey(p.K)); err != nil {
+			return viol("reopen-error", "TryDelete(%v) on the reopened trie: %v", p.K, err)
+		}
 		rest := []Pair{}
 		for _, q := range c {
 			if ks(q.K) != ks(p.K) {
 				rest = append(rest, q)
 			}
 		}
-		if g, w := t2.Hash(), refRoot(in.concrete(rest)); g != w {
+		if g, w := t3.Hash(), refRoot(in.concrete(rest)); g != w {
 			return &Viol{Cat: "root-vs-reference", Detail: fmt.Sprintf("reopened trie after deleting %v", p.K), Exp: w.Hex(), Got: g.Hex()}
 		}
-		t2.TryUpdate(in.akey(p.K), in.val(p.V))
-		if g := t2.Hash(); g != root {
+		t3.TryUpdate(in.akey(p.K), in.val(p.V))
+		if g := t3.Hash(); g != root {
 			return &Viol{Cat: "root-vs-rebuilt", Detail: fmt.Sprintf("reopened trie after deleting and re-inserting %v", p.K), Exp: root.Hex(), Got: g.Hex()}
 		}
 	}
@@ -436,7 +461,7 @@ func (in *inst) commit(c []Pair) *Viol {
 func (in *inst) reload() *Viol {
 	db := in.tdb
 	if in.fl.Disk {
-		db = trie.NewDatabase(in.disk)
+		db = in.newTrieDB()
 		in.tdb = db
 	}
 	t, err := openTrie(in.fl.Secure, in.croot, db)
@@ -714,7 +739,11 @@ func (in *inst) exec(r *Rec, c []Pair) (res []interface{}, v *Viol) {
 		if r.Op == "delete" {
 			err = in.t.TryDelete(in.akey(r.K))
 		} else {
-			err = in.t.TryUpdate(in.akey(r.K), in.val(r.V))
+			v := in.val(r.V)
+			if r.V == 0 && in.rng.Intn(2) == 0 {
+				v = []byte{} // an empty value deletes, nil or not
+			}
+			err = in.t.TryUpdate(in.akey(r.K), v)
 		}
 		if err != nil {
 			return ok, viol("update-error", "%s(%v): %v", r.Op, r.K, err)
@@ -1061,7 +1090,7 @@ func cmdRandom(args []string) {
 	out := fs.String("out", "", "trace ndjson")
 	fs.Parse(args)
 	log.Global.SetOutput(io.Discard)
-	opt := &options{bits: 1, corruptMax: 0, seed: *seed}
+	opt := &options{bits: 1, corruptMax: 0, seed: *seed, cleanCache: true}
 	uni := universe(4)
 	var fixed3 [][]int
 	for _, k := range uni {
